@@ -144,6 +144,9 @@ pub struct ExpResp {
     /// Application-set fields, in order (None: library-generated response, not compared).
     pub user_headers: Option<Vec<(String, String)>>,
     pub ctype: Option<&'static str>,
+    /// An alternative (status, body) that is acceptable too where the documentation and
+    /// the statement leave the choice open.
+    pub alt: Option<(u16, Vec<u8>)>,
 }
 
 #[derive(Clone, Debug, Default)]
@@ -162,7 +165,16 @@ fn lib_resp(code: u16, body: &str) -> ExpResp {
         body: body.as_bytes().to_vec(),
         user_headers: None,
         ctype: Some("text/plain; charset=UTF-8"),
+        alt: None,
     }
+}
+
+/// No cache directory configured: the builder's documentation says 413, the error
+/// mapping gives 500; the properties pin neither.
+fn no_cache_dir_resp() -> ExpResp {
+    let mut r = lib_resp(500, "Internal server error");
+    r.alt = Some((413, b"Uploaded data is too big.".to_vec()));
+    r
 }
 
 fn plan_resp(spec: &RespSpec) -> ExpResp {
@@ -177,6 +189,7 @@ fn plan_resp(spec: &RespSpec) -> ExpResp {
             3 => Some("application/octet-stream"),
             _ => Some("text/html; charset=UTF-8"),
         },
+        alt: None,
     }
 }
 
@@ -225,6 +238,7 @@ pub fn model_conn(reqs: &[Req], cfg: &ServerCfg) -> ConnExpect {
                         body: vec![],
                         user_headers: None,
                         ctype: None,
+                        alt: None,
                     });
                 }
                 ready_phase(&mut e, r.body(), false)
@@ -239,7 +253,7 @@ pub fn model_conn(reqs: &[Req], cfg: &ServerCfg) -> ConnExpect {
                             assert!(*n > *m);
                             e.resps.push(lib_resp(413, "Uploaded data is too big."));
                         } else {
-                            e.resps.push(lib_resp(500, "Internal server error"));
+                            e.resps.push(no_cache_dir_resp());
                         }
                     }
                     OnPending::Drop => {}
@@ -274,19 +288,19 @@ pub fn model_conn(reqs: &[Req], cfg: &ServerCfg) -> ConnExpect {
                 });
                 let fetch = |e: &mut ConnExpect, m: u64, ready: &mut dyn FnMut(&mut ConnExpect, Vec<u8>, bool) -> bool| -> bool {
                     if cfg.cache_dir.is_none() {
-                        e.resps.push(lib_resp(500, "Internal server error"));
+                        e.resps.push(no_cache_dir_resp());
                         return false;
                     }
                     if (*n as u64) > m {
                         // known length: refused before reading; unknown: after reading m+1 bytes
                         if unknown && r.expect {
-                            e.resps.push(ExpResp { code: 100, body: vec![], user_headers: None, ctype: None });
+                            e.resps.push(ExpResp { code: 100, body: vec![], user_headers: None, ctype: None, alt: None });
                         }
                         e.resps.push(lib_resp(413, "Uploaded data is too big."));
                         return false;
                     }
                     if r.expect {
-                        e.resps.push(ExpResp { code: 100, body: vec![], user_headers: None, ctype: None });
+                        e.resps.push(ExpResp { code: 100, body: vec![], user_headers: None, ctype: None, alt: None });
                     }
                     ready(e, r.body(), unknown)
                 };
@@ -451,6 +465,15 @@ pub fn check_conn(prop: &str, conn_label: &str, exp: &ConnExpect, calls: &[Call]
 }
 
 pub fn diff_resp(e: &ExpResp, r: &Resp) -> Option<String> {
+    if let Some((code, body)) = &e.alt {
+        if r.code == *code {
+            let mut e2 = e.clone();
+            e2.code = *code;
+            e2.body = body.clone();
+            e2.alt = None;
+            return diff_resp(&e2, r);
+        }
+    }
     if e.code != r.code {
         return Some(format!("status {} but {} was expected", r.code, e.code));
     }
